@@ -40,7 +40,9 @@ RULE = ("layouts built from block-occupancy vectors over nr x nc grids of unit b
         "cross-validators (180-300 samples, thorough up to 400, along survey lines and in clusters over mostly empty "
         "50x50 .. 100x100 block grids with the corner blocks occupied, n_splits 3..5, shuffle on/off, balance on/off; block ids "
         "run into the thousands, where numpy's isin takes its sort-based path; the labels go to Coq as their ranks among the "
-        "occupied ids). Reproducibility: for every case the folds "
+        "occupied ids); an uneven-blocks stream for both cross-validators (one row of up to 9 blocks whose largest population "
+        "lies strictly between one and two ideal folds, total/n_splits < max < 2*total/n_splits, the large block first, in the "
+        "middle, last, or two large ones; n_splits 2..5; shuffle on/off; BlockShuffleSplit with balancing 2..10). Reproducibility: for every case the folds "
         "compared with the model are the first split() of a fresh instance on a C-ordered X, and the following must give "
         "exactly the same folds: split() a 2nd (thorough: and 3rd) time on the SAME instance, a second fresh instance, "
         "sklearn.base.clone of the used instance (split twice; safe=False, i.e. a deep copy, while the splitters have no "
@@ -697,6 +699,50 @@ def _sparse_grid(tier, rnd, n=None):
     return specs
 
 
+def _uneven_pops(rnd, k):
+    """populations of one row of blocks whose maximum lies strictly between one and two ideal folds
+    (total/k < max < 2*total/k), the large block(s) first, in the middle, last, or two of them"""
+    for _ in range(200):
+        L = rnd.randint(k + 1, 9)
+        pops = [rnd.choice([1, 1, 1, 2, 2, 3]) for _ in range(L)]
+        where = rnd.choice(["first", "middle", "last", "two", "two-adjacent", "random"])
+        small = sum(pops)
+        lo = small // max(1, k - 1) + 1
+        hi = (2 * small) // (k - 2) if k > 2 else 4 * small
+        big = rnd.randint(lo, max(lo, min(hi, lo + 12)))
+        pos = {"first": [0], "middle": [L // 2], "last": [L - 1], "two": [rnd.randrange(L // 2), L - 1 - rnd.randrange(L // 2)],
+               "two-adjacent": [L // 2 - 1, L // 2], "random": [rnd.randrange(L)]}[where]
+        for i in set(pos):
+            pops[i] = big if len(set(pos)) == 1 else max(2, big - rnd.randint(0, 2) - big // 3)
+        tot, mx = sum(pops), max(pops)
+        if tot < k * mx < 2 * tot:
+            return tuple(pops)
+    return (3, 1, 1, 1, 1, 8, 8)
+
+
+def _uneven_blocks(tier, rnd, n=None):
+    specs = [{"cv": "kfold", "kind": "kfold-uneven-blocks", "grid": (1, 7), "occ": (3, 1, 1, 1, 1, 8, 8),
+              "n_splits": 3, "seed": None, "balance": True}]
+    if n is None:
+        n = 120 if tier == "quick" else 1500
+    for i in range(n):
+        k = rnd.choice([2, 3, 3, 3, 4, 4, 5])
+        pops = _uneven_pops(rnd, k)
+        grid = (1, len(pops))
+        if i % 3 != 2:
+            seed = None if i % 2 == 0 else rnd.randrange(10 ** 6)
+            specs.append({"cv": "kfold", "kind": "kfold-uneven-blocks", "grid": grid, "occ": pops,
+                          "n_splits": k, "seed": seed, "balance": i % 7 != 6})
+        else:
+            nocc = len(pops)
+            ts, tr = rnd.choice([(1, None), (2, None), (0.25, None), (0.34, None), (0.5, None), (1, 2), (None, 0.6),
+                                 (max(1, nocc // 3), None)])
+            specs.append({"cv": "bss", "kind": "bss-uneven-blocks", "grid": grid, "occ": pops,
+                          "n_splits": rnd.choice([1, 2, 3]), "balancing": rnd.choice([2, 3, 5, 10]),
+                          "test_size": ts, "train_size": tr, "seed": rnd.randrange(10 ** 6)})
+    return specs
+
+
 def _specs0(tier, rnd):
     specs = []
     specs += _pbs(tier, rnd)
@@ -707,6 +753,7 @@ def _specs0(tier, rnd):
     specs += _bss_random(tier, rnd)
     specs += _bss_malformed(tier, rnd)
     specs += _sparse_grid(tier, rnd)
+    specs += _uneven_blocks(tier, rnd)
     return specs
 
 
@@ -745,7 +792,7 @@ def generate(tier, seed):
 
 def search(dis, tier, seed):
     rnd = random.Random(seed + 1)
-    specs = _sparse_grid("thorough", rnd, n=48) + _kfold_random("quick", rnd) + _bss_random("quick", rnd) \
+    specs = _uneven_blocks("quick", rnd, n=600) + _sparse_grid("thorough", rnd, n=48) + _kfold_random("quick", rnd) + _bss_random("quick", rnd) \
         + _kfold_exhaustive("quick", rnd) + _bss_exhaustive("quick", rnd) + _pbs("quick", rnd)
     for k, sp in enumerate(specs):
         if sp["cv"] != "pbs":
